@@ -11,7 +11,9 @@ RULE = ("an explicit enumeration of tag values placed under the type-tag key (ev
         "relative / double-dotted strings, names of modules, functions, type variables, constants, non-serialisable "
         "classes, a package whose import raises ImportError) run completely, plus random tags assembled from dots and "
         "identifier fragments; a tag that an independent resolver finds to be a deserialisable class is skipped.  "
-        "Oracle: from_json raises a JSONSerializationError subclass - never another exception, never an object.  "
+        "Oracle: every one of four consecutive presentations of the document (module-level from_json and "
+        "SubclassJSONSerializer.from_json, a valid document in between) raises a JSONSerializationError subclass - "
+        "never another exception, never an object.  "
         "Non-trivial = the tag gets past the 'missing' test (truthy); distinct = the tag value")
 ASSUMPTIONS = ["documents carry arbitrary extra payload keys besides the tag",
                "modules whose import raises something other than ImportError are not part of the enumeration"]
@@ -132,17 +134,32 @@ def run(spec, ctx):
     doc = json.loads(json.dumps(doc))  # the document really is JSON
     if spec.get("enumerated"):
         C["enumerated_tags"] += 1
-    try:
-        res = js.from_json(doc)
-    except js.JSONSerializationError as e:
-        C["raised_documented"] += 1
-        C["err:" + type(e).__name__] += 1
-        return {"status": "ok", "nontrivial": bool(tag), "shape": json.dumps(tag, sort_keys=True),
-                "obs": {"tag": tag, "error": type(e).__name__}}
-    except Exception as e:
-        key = mechanism(tag, e)
-        C["escaped:" + type(e).__name__] += 1
-        return {"status": "fail", "kind": "undocumented-exception:" + type(e).__name__, "key": key,
-                "detail": f"tag={tag!r} raised {type(e).__name__}: {e}"[:300]}
-    return {"status": "fail", "kind": "object-returned", "key": None,
-            "detail": f"tag={tag!r} returned {type(res).__name__} {res!r}"[:300]}
+    # the same document is presented several times (a resolver that remembers tags must keep failing the same way),
+    # through both entry points, with a valid document deserialised in between
+    attempts = [("from_json", js.from_json), ("from_json", js.from_json),
+                ("SubclassJSONSerializer.from_json", js.SubclassJSONSerializer.from_json), ("from_json", js.from_json)]
+    errors = []
+    for n, (ename, entry) in enumerate(attempts):
+        try:
+            res = entry(json.loads(json.dumps(doc)))
+        except js.JSONSerializationError as e:
+            C["raised_documented"] += 1
+            C["err:" + type(e).__name__] += 1
+            errors.append(type(e).__name__)
+        except Exception as e:
+            key = mechanism(tag, e)
+            C["escaped:" + type(e).__name__] += 1
+            return {"status": "fail", "kind": "undocumented-exception:" + type(e).__name__, "key": key,
+                    "detail": f"tag={tag!r} attempt {n + 1} via {ename} raised {type(e).__name__}: {e}"[:300]}
+        else:
+            return {"status": "fail", "kind": "object-returned", "key": None,
+                    "detail": f"tag={tag!r} attempt {n + 1} via {ename} returned {type(res).__name__} {res!r}"[:300]}
+        if n == 0:
+            ok = js.from_json({js.JSON_TYPE_NAME: "uuid.UUID", "value": "123e4567-e89b-12d3-a456-426614174000"})
+            C["valid_documents_between_attempts"] += 1
+            if type(ok).__name__ != "UUID":
+                return {"status": "fail", "kind": "valid-document-broken", "key": None,
+                        "detail": f"after tag={tag!r} a valid uuid document gave {ok!r}"}
+    C["repeat_attempts"] += len(attempts) - 1
+    return {"status": "ok", "nontrivial": bool(tag), "shape": json.dumps(tag, sort_keys=True),
+            "obs": {"tag": tag, "errors": errors}}
